@@ -203,6 +203,7 @@ class Unroller(ast.NodeTransformer):
                 self.classes[st.name] = (consts, funcs)
         self.cls = []
         self.fn = []
+        self.fn_nodes = []
         self.count = 0
         # names / attribute names whose object is mutated somewhere in the module: never constant tables
         self.mutated = set()
@@ -251,7 +252,9 @@ class Unroller(ast.NodeTransformer):
                 local[st.targets[0].id] = st.value
         params = {a.arg for a in node.args.args + node.args.kwonlyargs + node.args.posonlyargs}
         self.fn.append((local, params, counts))
+        self.fn_nodes.append(node)
         self.generic_visit(node)
+        self.fn_nodes.pop()
         self.fn.pop()
         return node
 
@@ -319,8 +322,27 @@ class Unroller(ast.NodeTransformer):
                 if sr is not None:
                     val, n_params, implicit = sr
                     if n_params == (implicit if bound else 0):
-                        # the helper's literal must not mention its own parameters
-                        return self.table(val, depth + 1)
+                        t = self.table(val, depth + 1)
+                        if t is not None and bound and implicit and fn.args.args and isinstance(f, ast.Attribute) and isinstance(f.value, ast.Name):
+                            # rows that mention the helper's own receiver are read on the receiver of the call: the
+                            # same name for self -> self, type(self) for a class method reached through an instance
+                            hp = fn.args.args[0].arg
+                            is_cm = "classmethod" in {ast.unparse(d) for d in fn.decorator_list}
+                            caller_cm = bool(self.fn_nodes) and "classmethod" in {ast.unparse(d) for d in self.fn_nodes[-1].decorator_list}
+                            recv = ast.Name(id=f.value.id, ctx=ast.Load())
+                            if f.value.id in self.classes:
+                                recv_for_cls = recv
+                            elif is_cm and not caller_cm:
+                                recv_for_cls = ast.Call(func=ast.Name(id="type", ctx=ast.Load()), args=[recv], keywords=[])
+                            else:
+                                recv_for_cls = recv
+                            target = recv_for_cls if is_cm else recv
+                            mentions = any(isinstance(x, ast.Name) and x.id == hp for r in (t[1] if t[0] == "rows" else list(t[1].keys) + list(t[1].values)) for x in ast.walk(r))
+                            if mentions and not (isinstance(target, ast.Name) and target.id == hp):
+                                if t[0] != "rows":
+                                    return None
+                                t = ("rows", [_Subst({hp: target}).visit(copy.deepcopy(r)) for r in t[1]])
+                        return t
             return None
         if isinstance(e, ast.Call) and isinstance(e.func, ast.Name) and e.func.id == "enumerate" and len(e.args) == 1 and not e.keywords:
             t = self.table(e.args[0], depth + 1)
